@@ -826,6 +826,22 @@ def oracle_C16(rs, n, ctx):
             if abs(ext0 - ext1) > 1e-12 * ext0:
                 R.violate("C16:resample-extent", f"axis {a}: extent {ext0!r} -> {ext1!r} (spacing {E.gridsize[a]!r})", rep)
                 break
+        # the resampled object must behave exactly like a fresh object built from its own (grid, spacing, origin): node axes
+        # of the new length starting at the origin, and point evaluation on them (no state surviving from before the edit)
+        axes_new = [E.zaxis, E.xaxis] + ([E.yaxis] if nd == 3 else [])
+        fresh = eik(nd)(E.grid.copy(), E.gridsize, E.origin)
+        axes_fresh = [fresh.zaxis, fresh.xaxis] + ([fresh.yaxis] if nd == 3 else [])
+        for a in range(nd):
+            if len(axes_new[a]) != new_shape[a] or not np.array_equal(axes_new[a], axes_fresh[a]) or axes_new[a][0] != float(o[a]):
+                R.violate("C16:resample-axes", f"axis {a} after resample has {len(axes_new[a])} nodes {np.asarray(axes_new[a])[:3].tolist()}.. , a fresh grid with the same data has {len(axes_fresh[a])} nodes {np.asarray(axes_fresh[a])[:3].tolist()}..", rep)
+                break
+        rs2 = np.random.RandomState(1000003 + it)
+        qp = np.array([[axes_fresh[a][0] + rs2.rand() * (axes_fresh[a][-1] - axes_fresh[a][0]) for a in range(nd)] for _ in range(6)])
+        try:
+            if not np.array_equal(E(qp), fresh(qp), equal_nan=True):
+                R.violate("C16:evaluate-after-resample", f"evaluating the resampled model differs from a fresh model with the same data (max {np.nanmax(np.abs(E(qp) - fresh(qp))):.3e})", dict(rep, points=qp.tolist()))
+        except Exception as ex:  # noqa: BLE001
+            R.violate("C16:evaluate-after-resample", f"{type(ex).__name__}: {ex}", rep)
         if E.grid.min() < v.min() - 1e-12 * abs(v.min()) or E.grid.max() > v.max() + 1e-12 * abs(v.max()) or not np.isfinite(E.grid).all():
             R.violate("C16:resample-range", f"values [{E.grid.min()!r}, {E.grid.max()!r}] leave [{v.min()!r}, {v.max()!r}]", rep)
         if kind == "homog" and np.abs(E.grid - v.flat[0]).max() > 1e-12 * abs(v.flat[0]):
